@@ -71,7 +71,7 @@ StepOK ==
     [] a.a = "Restart" -> P_Restart
     [] a.a = "Wait" -> P_Wait
     [] OTHER -> TRUE
-StepsOK == [][~tainted => StepOK]_mcvars
+StepsOK == [][StepOK]_mcvars
 \* (expected to fail: a snapshot does not carry ResumeAll - the counterexample is replayed on the real server)
 RestartKeepsResumeAll == [][last'.a = "Restart" => P_RestartResumeAll]_mcvars
 
